@@ -207,6 +207,8 @@ def run_unit(repo, tmpl_path, build_dir, twins=False, rlimit=None, extra=(), tim
     name = os.path.splitext(os.path.basename(tmpl_path))[0]
     R.unit = name
     R.auto_stubs = []
+    R.stub_info = []     # (method name, takes &mut self) of every auto-stub
+    R.noloop_fns = []    # functions that got exec_allows_no_decreases_clause: a new loop/recursion without measure
     t0 = time.time()
     try:
         A = U.assemble(repo, tmpl_path, twins=twins)
@@ -249,6 +251,9 @@ def run_unit(repo, tmpl_path, build_dir, twins=False, rlimit=None, extra=(), tim
                 lines.insert(ln - 1, "#[verifier::exec_allows_no_decreases_clause]")
                 A.linemap.insert(ln - 1, ("gen", "auto-attr", 0))
                 R.auto_stubs.append(desc)
+                mfn = re.match(r"termination of (\w+) is not checked", desc)
+                if mfn:
+                    R.noloop_fns.append(mfn.group(1))
             A.text = "\n".join(lines)
             if not stubs:
                 continue
@@ -278,6 +283,10 @@ def run_unit(repo, tmpl_path, build_dir, twins=False, rlimit=None, extra=(), tim
             line_k = A.text.count("\n", 0, k)
             A.linemap = A.linemap[:line_k + 1] + [("gen", "auto-stub", 0)] * nl + A.linemap[line_k + 1:]
         R.auto_stubs += [d for _, d in stubs]
+        for (t, _d) in stubs:
+            mn = re.search(r"\bfn\s+(\w+)", t)
+            if mn:
+                R.stub_info.append((mn.group(1), bool(re.search(r"&\s*(?:'\w+\s+)?mut\s+self", t))))
     R.wall_s = time.time() - t0
     R.stderr = p.stderr
     try:
